@@ -771,7 +771,11 @@ impl Builtins {
                     }
                     elems.push(Rc::new(P(Int(num))));
                     pos_list.push(pos.clone());
-                    num += step;
+                    // Stepping past i64::MAX means we are past the end as well.
+                    num = match num.checked_add(step) {
+                        Some(n) => n,
+                        None => break,
+                    };
                 }
             }
             _ => {
